@@ -117,10 +117,18 @@ class LiftConstantsToInitializersPass(ir.passes.InPlacePass):
             tensor = ir.tensor(
                 attr_value.as_floats(), dtype=ir.DataType.FLOAT, name=initializer_name
             )
-        elif attr_name in ("value_string", "value_strings"):
-            tensor = ir.StringTensor(
-                np.array(attr_value.value, dtype=np.bytes_), name=initializer_name
-            )
+        elif attr_name == "value_string":
+            value = attr_value.value
+            data = value.encode("utf-8") if isinstance(value, str) else bytes(value)
+            # dtype=object keeps the exact bytes (np.bytes_ strips trailing NULs and only takes ASCII str)
+            array = np.empty((), dtype=object)
+            array[()] = data
+            tensor = ir.StringTensor(array, name=initializer_name)
+        elif attr_name == "value_strings":
+            strings = [s.encode("utf-8") if isinstance(s, str) else bytes(s) for s in attr_value.value]
+            array = np.empty((len(strings),), dtype=object)
+            array[:] = strings
+            tensor = ir.StringTensor(array, name=initializer_name)
         else:
             raise ValueError(
                 f"Unsupported constant node '{node.name}' attribute '{attr_name}'"
